@@ -7,6 +7,8 @@ seed=int(sys.argv[1]) if len(sys.argv)>1 else 1
 n=int(sys.argv[2]) if len(sys.argv)>2 else 300
 rng=random.Random(seed)
 cases, agg = sysgen.gen_histories(rng, n)
+sc, cnt = sysgen.gen_scenarios(rng, n)
+cases += sc
 res, st = syscorr.run_both(cases, "systest")
 bad=0
 for cid, lines, io, mo in res:
